@@ -122,6 +122,20 @@ func init() {
 		r.ExploreSpecs(collSpecs(r, or, []string{"t", "s60", "limM"}))
 		r.ExploreSpecs(collMetaSpecs(r, or))
 		r.ExploreSpecs(nestedFor(r, or))
+		// containers produced by the bulk constructors are reachable containers too: all element streams
+		// up to length 7, every length with all tails, maps built from sources (same driver as C17)
+		var args []any
+		args = append(args, c17Arg{T: 256, Mode: "arr-streams", Prefix: nil, MaxLen: 1})
+		for _, a := range c17Classes {
+			for _, b := range c17Classes {
+				args = append(args, c17Arg{T: 256, Mode: "arr-streams", Prefix: []string{a, b}, MaxLen: 7})
+			}
+		}
+		for sh := 0; sh < 16; sh++ {
+			args = append(args, c17Arg{T: 256, Mode: "arr-tails", From: 8, To: 70, Tail: 3, Shard: sh, Shards: 16})
+			args = append(args, c17Arg{T: 256, Mode: "map-batch", From: 0, To: 40, Shard: sh, Shards: 16})
+		}
+		r.RunTaskGroup("bulk-built arrays and maps (structure)", "c17", args)
 		sweepSlabSizes(r)
 	}})
 	RegisterCheck(&CheckDef{ID: "C06", Level: "model_checking", Run: func(r *Run) {
